@@ -577,7 +577,24 @@ static bool parseProgram(const std::vector<std::string> &w, size_t from, std::ve
 {
   for (size_t i = from; i < w.size(); ++i) {
     const std::string &t = w[i];
-    if (t[0] == '*') {
+    if (t[0] == '#') {
+      // #N[ body ]: the body N times, every '%' in a token replaced by the repetition number (N distinct names)
+      if (t.back() != '[') return false;
+      unsigned long long n = vh::to_ull(t.substr(1, t.size() - 2));
+      size_t j = i + 1;
+      for (; j < w.size() && w[j] != "]"; ++j) {}
+      if (j >= w.size()) return false;
+      for (unsigned long long r = 0; r < n; ++r)
+        for (size_t k = i + 1; k < j; ++k) {
+          std::string tok = w[k];
+          for (size_t p = tok.find('%'); p != std::string::npos; p = tok.find('%', p))
+            tok.replace(p, 1, std::to_string(r));
+          Ev e;
+          if (!parseEvent(tok, e)) return false;
+          out.push_back(e);
+        }
+      i = j;
+    } else if (t[0] == '*') {
       if (t.back() != '[') return false;
       unsigned long long n = vh::to_ull(t.substr(1, t.size() - 2));
       std::vector<Ev> body;
